@@ -1,6 +1,6 @@
 (* C05 - Surrogate-outcome / transport (TRSO) estimands equal the target effect. *)
 From Coq Require Import List Bool.
-From Y0 Require Import Base.ListSet Graph.MixedGraph Dsl.Syntax Dsl.Build Dsl.Canon Alg.Id Alg.Trso Proofs.TrsoP.
+From Y0 Require Import Base.ListSet Graph.MixedGraph Graph.Closure Dsl.Syntax Dsl.Build Dsl.Canon Alg.Id Alg.Trso Proofs.TrsoP Proofs.IdTotalP Proofs.TrsoIdP.
 Import ListNotations.
 
 (* Soundness over multi-domain SCM families is not yet proved (DESIGN.md 5/C05). Proved on the model: *)
@@ -21,6 +21,35 @@ Theorem C05_overlapping_outcomes_and_interventions_are_rejected topo g Y X domai
   identify_target_outcomes topo g Y X domains = RCrash ValueError.
 Proof. exact (trso_rejects_overlapping_query topo g Y X domains). Qed.
 
+(* 'When no surrogate experiment is usable it returns an estimand exactly when ID does' - for queries WITHOUT source domains:
+   on every valid query over a well-formed acyclic graph of regular nodes, the verdicts (estimand / no estimand) of
+   identify_target_outcomes and identify_outcomes coincide unless one of the two raises; with a valid topological-order oracle ID
+   never raises (C02), so TRSO either raises or gives ID's verdict. Proved by following the two recursions step by step (lines 1-4,
+   the hedge test, line 9 / line 6, line 10 / line 7) under one fuel budget. Not covered: declared domains none of which is usable. *)
+Theorem C05_without_domains_trso_and_id_agree topo (g : mg nat) X Y :
+  wf g -> acyclicP g -> incl X (nodes g) -> incl Y (nodes g) -> Y <> [] -> (forall v, In v X -> ~ In v Y) ->
+  (forall n, In n (nodes g) -> is_transport_node n = false) ->
+  agree (v_tr (identify_target_outcomes topo g Y X [])) (v_id (identify_outcomes false topo g X Y)).
+Proof. exact (trso_agrees_with_id_without_domains topo g X Y). Qed.
+
+Theorem C05_without_domains_trso_gives_ids_verdict_or_raises topo
+  (topo_ok : forall h, wf h -> acyclicP h -> exists o, topo h = Some o /\ is_topo h o = true) (g : mg nat) X Y :
+  wf g -> acyclicP g -> incl X (nodes g) -> incl Y (nodes g) -> Y <> [] -> (forall v, In v X -> ~ In v Y) ->
+  (forall n, In n (nodes g) -> is_transport_node n = false) ->
+  v_tr (identify_target_outcomes topo g Y X []) = None \/
+  v_tr (identify_target_outcomes topo g Y X []) = v_id (identify_outcomes false topo g X Y).
+Proof. exact (trso_verdict_is_ids_verdict topo topo_ok g X Y). Qed.
+
+(* not vacuous: the front-door graph, both give an estimand; the bow graph, both refuse *)
+Example C05_agreement_not_vacuous :
+  v_tr (identify_target_outcomes topological_sort (MG [100; 101; 102] [(100, 101); (101, 102)] [(100, 102)]) [102] [100] []) = Some true /\
+  v_id (identify_outcomes false topological_sort (MG [100; 101; 102] [(100, 101); (101, 102)] [(100, 102)]) [100] [102]) = Some true /\
+  v_tr (identify_target_outcomes topological_sort (MG [100; 101] [(100, 101)] [(100, 101)]) [101] [100] []) = Some false /\
+  v_id (identify_outcomes false topological_sort (MG [100; 101] [(100, 101)] [(100, 101)]) [100] [101]) = Some false.
+Proof. vm_compute. auto. Qed.
+
+Print Assumptions C05_without_domains_trso_and_id_agree.
+Print Assumptions C05_without_domains_trso_gives_ids_verdict_or_raises.
 Print Assumptions C05_without_target_interventions_the_answer_is_the_marginal.
 Print Assumptions C05_queries_naming_unknown_nodes_are_rejected.
 Print Assumptions C05_overlapping_outcomes_and_interventions_are_rejected.
